@@ -247,6 +247,8 @@ func paraStyleName(s string) string {
 	switch s {
 	case "body":
 		return "Text_20_body"
+	case "lead":
+		return "Text_20_body" // (the bold-off derivation is a DOCX matter; ODT: an ordinary body style)
 	case "quote":
 		return "Quotations"
 	}
